@@ -52,7 +52,8 @@
      SSetIo  cancel.set_io(io_data)
      SCan    cancel.is_canceled                         false -> done | true -> SCan2
      SCan2   cancel.cancel(): CancelIoImpl slot take    none -> done | f' -> SCan3 f'
-     SCan3   f'.co.take                                 c -> schedule c
+     SCan3   f'.co.take                                 none -> done | c -> SCan4 f' c
+     SCan4   timer cell take, null event_data (fixD); schedule c
    Selector g (one per worker; descriptor f is served by `selof f`):
      SelEvent  a pending event of f: io_flag.fetch_or(events)                      -> SEv f
      SelTake   co.take                                  none -> idle | c -> SEvT f c
@@ -62,8 +63,9 @@
      SelMark   timeout_handler: io_flag.fetch_or(TIMER_MARK)                       -> THnd2 f
      SelHnd    timeout_handler: co.take                 none -> nothing | c: timer cell take, null event_data, remove (fixB);
                                                         set the TimedOut parameter, run_coroutine(c)
-   Canceller of actor a (Cancel::cancel, any thread): CancelSet (state.fetch_or(1)), CancelIo (slot take), CancelTake (co.take,
-             null event_data of the armed timer (fixD), schedule)
+   Canceller of actor a (Cancel::cancel, any thread): CancelSet (state.fetch_or(1)), CancelIo (slot take), CancelTake (co.take),
+             CancelNull (timer cell take, null event_data of the armed timer (fixD), schedule): two steps, the selector
+             thread's timeout handler can read event_data in between
    `calm` (a Section boolean) adds a guard to the context switch in PYield: the caller does not suspend on descriptor f
    while a kernel half of an earlier suspension of itself or on f is still running, or while the timeout handler is
    between its two accesses for f - i.e. no worker is preempted inside the few instructions that follow `co.store` /
@@ -80,11 +82,11 @@ Import ListNotations.
 
 Inductive kind := Rd | Wr.
 Inductive pc := Idle | PReset | PTry | PYield | Susp | RBack | RClr | LRes | LClr | LSys | LChk | Dead.
-Inductive spc := SArm | SStore | SChk | SFast | SFastT (c : nat) | SSetIo | SCan | SCan2 | SCan3 (f : nat) | SDone.
+Inductive spc := SArm | SStore | SChk | SFast | SFastT (c : nat) | SSetIo | SCan | SCan2 | SCan3 (f : nat) | SCan4 (f c : nat) | SDone.
 Inductive selst := SIdle | SEv (f : nat) | SEvT (f c : nat) | THnd (f e : nat) | THnd2 (f e : nat).
-Inductive cnst := CnIdle | Cn1 | Cn2 (f : nat).
+Inductive cnst := CnIdle | Cn1 | Cn2 (f : nat) | Cn3 (f c : nat).
 Inductive tst := TFree | TArmed | TGone.
-Inductive home := HNone | HSub (k : nat) | HSlot (f : nat) | HSel (g : nat) | HFast (k : nat) | HAwake.
+Inductive home := HNone | HSub (k : nat) | HSlot (f : nat) | HSel (g : nat) | HFast (k : nat) | HCan (a : nat) | HKCan (k : nat) | HAwake.
 Inductive res := ROk (l : list nat) | RWrote (n : nat) | REof | RPipe | RTimedOut | RCanceled.
 
 Record actor := { apc : pc; afd : nat; akind : kind; acn : bool; ato : option nat; adat : list nat; an : nat;
@@ -115,6 +117,7 @@ Inductive action :=
 | CancelSet (a : nat)
 | CancelIo (a : nat)
 | CancelTake (a : nat)
+| CancelNull (a : nat)
 | Tick (d : nat)
 | Shutdown (f : nat)
 | Spurious (f : nat)
@@ -309,9 +312,11 @@ Definition step (s : st) (ac : action) : option st :=
         | SCan3 f' =>
             match co s f' with
             | None => Some (wS s (upd (Sb s) k (s_pc y SDone)))
-            | Some c => Some (wake ((if fixD then fun s0 => disarm s0 f' false else fun s0 => s0)
-                                      (wco (wS s (upd (Sb s) k (s_pc y SDone))) (upd (co s) f' None))) c)
+            | Some c => Some (wA (wco (wS s (upd (Sb s) k (s_pc y (SCan4 f' c)))) (upd (co s) f' None))
+                                 (upd (A s) c (a_home (A s c) (HKCan k))))
             end
+        | SCan4 f' c => Some (wake ((if fixD then fun s0 => disarm s0 f' false else fun s0 => s0)
+                                      (wS s (upd (Sb s) k (s_pc y SDone)))) c)
         | SDone => None
         end
       else None
@@ -390,9 +395,14 @@ Definition step (s : st) (ac : action) : option st :=
       | Cn2 f =>
           match co s f with
           | None => Some (wCn s (upd (Cn s) a CnIdle))
-          | Some c => Some (wake ((if fixD then fun s0 => disarm s0 f false else fun s0 => s0)
-                                    (wco (wCn s (upd (Cn s) a CnIdle)) (upd (co s) f None))) c)
+          | Some c => Some (wA (wco (wCn s (upd (Cn s) a (Cn3 f c))) (upd (co s) f None))
+                               (upd (A s) c (a_home (A s c) (HCan a))))
           end
+      | _ => None
+      end
+  | CancelNull a =>
+      match Cn s a with
+      | Cn3 f c => Some (wake ((if fixD then fun s0 => disarm s0 f false else fun s0 => s0) (wCn s (upd (Cn s) a CnIdle))) c)
       | _ => None
       end
   | Tick d => Some (wnow s (now s + d))
